@@ -4,6 +4,7 @@ import (
 	"fmt"
 	"path/filepath"
 	"sort"
+	"sync"
 	"time"
 
 	"hermesverif/internal/core"
@@ -160,6 +161,10 @@ func checkC10(c *core.Ctx) {
 		c.Machineryf("%v", err)
 		return
 	}
+	var sysWG sync.WaitGroup
+	sysWG.Add(1)
+	go func() { defer sysWG.Done(); designSystem(c, "Mgmt") }()
+	defer sysWG.Wait()
 	if c.Replay == "" {
 		cfg := cfgWithConsts("Management_design.cfg", map[string]string{"MaxDate": fmt.Sprint(c.Pick(7, 8))})
 		r := c.TLC(core.TLCOpts{Module: "Management", CfgText: cfg, Kind: "design", Workers: 16, Timeout: 30 * time.Minute, Heap: "16g"})
